@@ -568,7 +568,9 @@ mod inner {
         #[cfg(feature = "autocomplete")]
         /// check if bpaf tries to complete last consumed element
         pub(crate) fn touching_last_remove(&self) -> bool {
-            self.comp.is_some() && self.items.len() - 1 == self.current.unwrap_or(usize::MAX)
+            self.comp.is_some()
+                && !self.items.is_empty()
+                && self.items.len() - 1 == self.current.unwrap_or(usize::MAX)
         }
 
         #[cfg(feature = "autocomplete")]
